@@ -44,8 +44,9 @@ def _data_dir():
         except OSError:
             shutil.rmtree(tmp, ignore_errors=True)      # somebody else was faster
         for old in os.listdir(root):                        # keep the directory tidy
-            if old != os.path.basename(d) and ".tmp" not in old:
-                shutil.rmtree(os.path.join(root, old), ignore_errors=True)
+            p = os.path.join(root, old)
+            if old != os.path.basename(d) and ".tmp" not in old and os.path.isdir(p):
+                shutil.rmtree(p, ignore_errors=True)
     return d
 
 
@@ -65,15 +66,18 @@ def run(ctx):
         return
     import time
 
-    def part(exe, name):
+    def part(exe, name, *more):
         t = time.time()
-        ctx.run_harness(exes[exe], ["--part", name], shards=16)
-        ctx.notes.append("%s --part %s: %.1fs" % (exe, name, time.time() - t))
+        ctx.run_harness(exes[exe], ["--part", name] + list(more), shards=16)
+        ctx.notes.append("%s --part %s %s: %.1fs" % (exe, name, " ".join(more), time.time() - t))
+    # smallest first
     part("h06", "unsplit")
-    part("h06", "split")
     for k in KS:
         part("h06fd%d" % k, "pieces")
-    part("h06fd", "shortread")
+    part("h06fd", "shortread", "--scope", "subset")
+    part("h06", "split")
+    if ctx.tier == "thorough":
+        part("h06fd", "shortread", "--scope", "rest")
     ctx.assume("a Decompressor never returns an empty piece before the end of the data (an empty string is the end marker of the "
                "Reader's input queue), so only segmentations into non-empty pieces are enumerated")
     ctx.assume("PBF: when a file ends inside a blob, the parser's own fd reading and its input-queue reading word the error differently "
